@@ -58,11 +58,15 @@ def fetchStreamStart : S Unit := do
   pushTok (Span.empty mark) .streamStart
   modS fun s => { s with simpleKeys := (⟨false, false, 0, ⟨0, 0, 0⟩⟩ : SimpleKey) :: s.simpleKeys }
 
+/-- at the end of the stream no key is possible any more -/
+def clearPossibleKeys (s : Sc) : Sc :=
+  { s with simpleKeys := s.simpleKeys.map fun sk => { sk with possible := false } }
+
 def fetchStreamEnd : S Unit := do
   modS fun s => if s.mark.col != 0 then { s with mark := ⟨s.mark.index, s.mark.line + 1, 0⟩ } else s
   let s ← getS
-  if s.simpleKeys.any (fun sk => sk.required && sk.possible) then err s.mark "simple key expected"
-  modS fun s => { s with simpleKeys := s.simpleKeys.map fun sk => { sk with possible := false } }
+  (if s.simpleKeys.any (fun sk => sk.required && sk.possible) then err s.mark "simple key expected" else pure ())
+  modS clearPossibleKeys
   unrollIndent (-1)
   removeSimpleKey
   disallowSimpleKey
@@ -273,6 +277,8 @@ def fetchAnchor (alias : Bool) : S Unit := do
 
 -- flow collections, block entry, document indicators ---------------------------------------------
 
+def pushImplState (st : ImplState) (s : Sc) : Sc := { s with implStates := st :: s.implStates }
+
 def fetchFlowCollectionStart (tok : TokenType) : S Unit := do
   saveSimpleKey
   rollOneColIndent
@@ -280,8 +286,7 @@ def fetchFlowCollectionStart (tok : TokenType) : S Unit := do
   allowSimpleKey
   let startMark ← getMark
   skipNonBlank
-  if tok == .flowMappingStart then modS fun s => { s with implStates := .explicitMapping :: s.implStates }
-  else modS fun s => { s with implStates := .possible :: s.implStates }
+  modS (pushImplState (if tok == .flowMappingStart then .explicitMapping else .possible))
   let _ ← skipWsToEol .yes
   pushTok ⟨startMark, ← getMark⟩ tok
 
@@ -291,14 +296,20 @@ def popExplicitMapping (s : Sc) : Sc :=
   | .explicitMapping :: r => { s with implStates := r }
   | _ => s
 
+/-- the state-stack part of a closing bracket: `]` ends a pending implicit mapping and leaves the
+    sequence level; `}` leaves the explicit-mapping level -/
+def closeFlowState (tok : TokenType) : S Unit :=
+  if tok == .flowSequenceEnd then do
+    let m ← getMark
+    endImplicitMapping m
+    modS fun s => { s with implStates := s.implStates.tail }
+  else modS popExplicitMapping
+
 def fetchFlowCollectionEnd (tok : TokenType) : S Unit := do
   removeSimpleKey
   decreaseFlowLevel
   disallowSimpleKey
-  if tok == .flowSequenceEnd then do
-    endImplicitMapping (← getMark)
-    modS fun s => { s with implStates := s.implStates.tail }
-  else modS popExplicitMapping
+  closeFlowState tok
   let startMark ← getMark
   skipNonBlank
   let _ ← skipWsToEol .yes
@@ -314,30 +325,56 @@ def fetchFlowEntry : S Unit := do
   let _ ← skipWsToEol .yes
   pushTok ⟨startMark, ← getMark⟩ .flowEntry
 
+/-- "???, fixes test G9HC": an anchor or tag in column 0 directly before a `-` in column 0 -/
+def anchorIndentCheck (s : Sc) : S Unit :=
+  match s.tokens.getLast? with
+  | some ⟨span, .anchor _⟩ | some ⟨span, .tag _ _⟩ =>
+    if s.mark.col == 0 && span.start.col == 0 && s.indent > -1 then
+      err span.start "invalid indentation for anchor"
+    else pure ()
+  | _ => pure ()
+
+/-- after `-` and tabs: a second `-` followed by a blank -/
+def blockEntryTabCheck (r : SkipTabs) : S Bool := do
+  if r.foundTabs then
+    if ← liftI (In.nextCharIs '-') then do
+      let nc ← peekNth 1
+      pure (isBlankOrBreakz nc)
+    else pure false
+  else pure false
+
+/-- `- ` directly followed by a break or a flow indicator opens a one-column indent -/
+def rollIfBreakOrFlow : S Unit := do
+  if ← liftI In.nextIsBreak then rollOneColIndent
+  else if ← liftI In.nextIsFlow then rollOneColIndent
+  else pure ()
+
+def fetchBlockEntryTail : S Unit := do
+  let _ ← skipWsToEol .no
+  lookahead 1
+  rollIfBreakOrFlow
+  removeSimpleKey
+  allowSimpleKey
+  let m ← getMark
+  pushTok (Span.empty m) .blockEntry
+
+def fetchBlockEntryBody (s : Sc) : S Unit := do
+  anchorIndentCheck s
+  skipNonBlank
+  rollIndent s.mark.col none .blockSequenceStart s.mark
+  let r ← skipWsToEol .yes
+  lookahead 2
+  let bad ← blockEntryTabCheck r
+  if bad then do
+    let m ← getMark
+    err m "'-' must be followed by a valid YAML whitespace"
+  else fetchBlockEntryTail
+
 def fetchBlockEntry : S Unit := do
   let s ← getS
   if s.flowLevel > 0 then err s.mark "\"-\" is only valid inside a block"
   else if !s.simpleKeyAllowed then err s.mark "block sequence entries are not allowed in this context"
-  else do
-    match s.tokens.getLast? with
-    | some ⟨span, .anchor _⟩ | some ⟨span, .tag _ _⟩ =>
-      if s.mark.col == 0 && span.start.col == 0 && s.indent > -1 then
-        err span.start "invalid indentation for anchor"
-    | _ => pure ()
-    let mark := s.mark
-    skipNonBlank
-    rollIndent mark.col none .blockSequenceStart mark
-    let r ← skipWsToEol .yes
-    lookahead 2
-    if r.foundTabs && (← liftI (In.nextCharIs '-')) && isBlankOrBreakz (← peekNth 1) then
-      err (← getMark) "'-' must be followed by a valid YAML whitespace"
-    else do
-      let _ ← skipWsToEol .no
-      lookahead 1
-      if (← liftI In.nextIsBreak) || (← liftI In.nextIsFlow) then rollOneColIndent
-      removeSimpleKey
-      allowSimpleKey
-      pushTok (Span.empty (← getMark)) .blockEntry
+  else fetchBlockEntryBody s
 
 def fetchDocumentIndicator (t : TokenType) : S Unit := do
   unrollIndent (-1)
